@@ -636,7 +636,13 @@ def is_subdir(base_path, test_path, trailing_slash=False, wildcards=False):
             test_path += '/'
 
     if wildcards:
-        return fnmatch.fnmatchcase(test_path, base_path)
+        # The pattern may name the path itself or any of its parents
+        parts = test_path.split('/')
+
+        return any(
+            fnmatch.fnmatchcase('/'.join(parts[:index]) + '/', base_path)
+            for index in range(1, len(parts))
+        )
     else:
         return test_path.startswith(base_path)
 
